@@ -543,7 +543,15 @@ def decide(prop, tier, seed, keep=False, only=None, jobs=None):
             jobs = 14
         schedule(ctx, harnesses, jobs)
         fmap = {f["id"]: f for f in findings}
-        failed = [h for h in harnesses if not h.finding and h.result["verdict"] == "fail"]
+        # a known-finding twin may only fail in the checks its entry lists; anything else is a new violation
+        for h in harnesses:
+            if h.finding and h.result["verdict"] == "fail":
+                pats = fmap[h.finding].get("check_patterns") or []
+                other = [c for c in h.result["failed_checks"] if not any(p in c["description"] for p in pats)]
+                if pats and other:
+                    h.result["unlisted_failures_in_known_region"] = other
+                    h.finding_unlisted = True
+        failed = [h for h in harnesses if h.result["verdict"] == "fail" and (not h.finding or getattr(h, "finding_unlisted", False))]
         for h in failed:
             log("   counterexample in %s: %s" % (
                 h.name, "; ".join("%s @ %s" % (c["description"], c["location"].split(" in function")[0]) for c in h.result["failed_checks"][:3])))
@@ -554,7 +562,7 @@ def decide(prop, tier, seed, keep=False, only=None, jobs=None):
         any_reproduced = any(v[0] for v in pb.values())
         for h in harnesses:
             r = h.result
-            if h.finding:
+            if h.finding and not getattr(h, "finding_unlisted", False):
                 f = fmap[h.finding]
                 if r["verdict"] == "fail":
                     l = "KNOWN-FINDING: property=%s %s: %s" % (prop, f["id"], f["what_fails"])
